@@ -3,6 +3,7 @@ mod conc;
 mod access_mode;
 mod cache_mode;
 mod kinds;
+mod kinds_cont;
 mod serde_mode;
 mod seq_mode;
 mod prog;
@@ -38,6 +39,7 @@ fn family(name: &str) -> GenCfg {
         second_type: false,
         aba: false,
         alternate: false,
+        late: false,
     };
     match name {
         "mixed" => base,
@@ -68,6 +70,10 @@ fn family(name: &str) -> GenCfg {
         // one rcu/cas caller against writers that put the very same pointer back (A-B-A inside the call)
         "rcuaba" => GenCfg { threads: (2, 3), aba: true, with_null: false, ..base },
         // one reader alternating between two containers on the fallback path, writers on each
+        // loads from a thread-local destructor after the crate's thread-local storage is gone
+        // (each borrows a node of its own), against writers; nofast and default strategies
+        "shutdown" => GenCfg { threads: (2, 3), containers: 2, strategy: 0, late: true, with_null: false, ..base },
+        "shutdownnf" => GenCfg { threads: (2, 3), containers: 2, strategy: 1, late: true, with_null: false, ..base },
         "helpab" => GenCfg { threads: (2, 3), containers: 2, strategy: 1, alternate: true, with_null: false, ..base },
         "xtype" => GenCfg { threads: (3, 4), second_type: true, w: [9, 3, 4, 1, 7, 3, 1, 1, 1], ops: (3, 7), with_null: false, ..base },
         other => panic!("unknown family {}", other),
@@ -311,6 +317,14 @@ fn main() {
             for l in kinds::run() {
                 println!("{}", l);
             }
+        }
+        "kindscont" => {
+            // container-level laws for every pointer kind: one line per violation, then the tally
+            let v = kinds_cont::run();
+            for l in &v {
+                println!("{}", l);
+            }
+            println!("kindscont: {} violation(s)", v.len());
         }
         _ => {
             eprintln!("usage: harness conc --sites <sites.json> --out <file> [--family f1,f2] [--seed n] [--count n] [--replay file [--exec k]]");
